@@ -212,7 +212,8 @@ def ps_enc_cases(draw):
     caret_flags = draw(st.lists(st.integers(0, 5), min_size=1, max_size=8))
     use_caret = draw(st.integers(0, 2)) == 0
     ctx = draw(st.sampled_from(["start", "cmd", "assign", "paren", "semicolon"]))
-    return {"token": tok, "style": style, "switches": sws, "enc": enc_name, "script": script, "quote": q, "carets": caret_flags if use_caret else None, "ctx": ctx, "sep": draw(st.sampled_from([b" ", b"  ", b"\t"]))}
+    seps = [b" ", b"  ", b"\t"] + ([b"", b""] if style == b"/" else [])  # a / switch may be glued to the previous token
+    return {"token": tok, "style": style, "switches": sws, "enc": enc_name, "script": script, "quote": q, "carets": caret_flags if use_caret else None, "ctx": ctx, "sep": draw(st.sampled_from(seps))}
 
 
 def _caret(s: bytes, flags):
